@@ -332,12 +332,14 @@ Inductive hop := HEnc | HDec (b : bytes).
 Inductive hout :=
 | HOEnc (r : res bytes)                    (* encode() result *)
 | HODec (r : res obj) (fresh_r : res obj)  (* the object after decode(b) / a brand-new instance after decode(b) *)
+| HOAfter (o : obj)                        (* the instance after a decode(b) that raised *)
 | HOUnexpected (what : string).            (* something the harness could not dump (see [seen]) *)
 
 Definition hout_eqb (x y : hout) : bool :=
   match x, y with
   | HOEnc a, HOEnc b => rbytes_eqb a b
   | HODec a f, HODec b g => robj_eqb a b && robj_eqb f g
+  | HOAfter a, HOAfter b => obj_eqb a b
   | _, _ => false
   end.
 
@@ -350,7 +352,8 @@ Fixpoint run_hist (o : obj) (ops : list hop) : list hout :=
       HOEnc r :: match r with Ok _ => run_hist o' t | Raise _ => [] end
   | HDec b :: t =>
       let r := decode_into o b in
-      HODec r (decode_into (fresh_like o) b) :: match r with Ok o' => run_hist o' t | Raise _ => [] end
+      HODec r (decode_into (fresh_like o) b) ::
+      match r with Ok o' => run_hist o' t | Raise _ => [HOAfter (decode_partial o b)] end
   end.
 
 (* property on the observed outputs alone: two encodes with no decode in between give the same
@@ -365,8 +368,10 @@ Fixpoint prop_hist (prev : option bytes) (outs : list hout) : bool :=
   | HOEnc (Ok b) :: t => match prev with Some p => bytes_eqb p b | None => true end && prop_hist (Some b) t
   | HOEnc (Raise _) :: _ => match prev with Some _ => false | None => true end
   | HODec (Ok o) (Ok f) :: t => obj_eqb (blank o) (blank f) && prop_hist None t
-  | HODec (Raise _) (Raise _) :: _ => true
+  | HODec (Raise _) (Raise _) :: [] => true
+  | HODec (Raise _) (Raise _) :: HOAfter _ :: _ => true     (* unconstrained: the partially assigned instance *)
   | HODec _ _ :: _ => false
+  | HOAfter _ :: _ => false
   | HOUnexpected _ :: _ => false
   end.
 
@@ -459,3 +464,26 @@ Definition same_shape (o f : obj) : bool :=
   | _, _ => false
   end.
 Definition wf_shape (o : obj) : bool := same_shape o (fresh_like o).
+
+(* raw byte payloads handed to the encoder are real bytes (each < 256: a Python bytes object cannot
+   hold anything else), and an exception response is built for a function code 1..127 *)
+Definition payload_ok (o : obj) : bool :=
+  match o with
+  | OSlaveIdRsp id _ _ => wfb id
+  | OMeiRsp _ _ _ _ _ _ info _ => forallb (fun kv : Z * bytes => wfb (snd kv)) (mei_items info)
+  | OExc orig _ _ => (1 <=? orig) && (orig <? 128)
+  | _ => true
+  end.
+
+(* classes whose decode() assigns nothing before its last statement that can raise: a raising decode
+   leaves the instance exactly as it was (explicit list; the others are described by [decode_partial]) *)
+Definition atomic_decode : list cls :=
+  [ReadCoilsRequest; ReadDiscreteInputsRequest; ReadHoldingRegistersRequest; ReadInputRegistersRequest;
+   WriteSingleCoilRequest; WriteSingleRegisterRequest; WriteMultipleCoilsRequest; MaskWriteRegisterRequest;
+   ReadExceptionStatusRequest; GetCommEventCounterRequest; GetCommEventLogRequest; ReportSlaveIdRequest;
+   ReadFifoQueueRequest; ReadDeviceInformationRequest;
+   ReadCoilsResponse; ReadDiscreteInputsResponse; WriteSingleCoilResponse; WriteSingleRegisterResponse;
+   WriteMultipleCoilsResponse; WriteMultipleRegistersResponse; MaskWriteRegisterResponse;
+   ReadExceptionStatusResponse; GetCommEventCounterResponse; ReportSlaveIdResponse; ExceptionResponse;
+   IllegalFunctionRequest]
+  ++ diag_request_classes ++ diag_response_classes.
